@@ -634,7 +634,7 @@ def dropped_results(facts, files=None):
 def r7_no_dropped_result(ctx):
     n, bad = dropped_results(ctx.facts, LIFECYCLE_FILES)
     ctx.count("result_call_sites_checked", n)
-    ctx.floor("C03.R7", "Result-returning call sites in the lifecycle files", n, 40)
+    ctx.floor("C03.R7", "Result-returning call sites in the lifecycle files", n, 25)
     for f, bb, t in bad:
         ctx.violation("C03.R7", f.key, "%s@%s" % (t["f"].get("name"), _ordinal(f.body, bb, t)),
                       "the Result of %s is discarded (neither `?`, returned, matched nor passed on)" % t["f"].get("key"), loc=f.loc(t.get("line")))
